@@ -270,14 +270,23 @@ def conv_full_loading(x, lrep_from, mrep_from, lrep_to, mrep_to, fluid=None, T=N
     return num * tscale / den
 
 
+# relative inaccuracy of the library's rounded table constants (documented precision of the tables)
+UNIT_INACCURACY = {
+    "cm3(STP)": 1.2e-4, "mL(STP)": 1.2e-4, "cc(STP)": 1.2e-4, "L(STP)": 1.2e-4,  # 4.461e-5 vs 1/22413.969
+    "mmHg": 1e-5, "torr": 1e-5,  # 133.322 vs 133.3224 / 133.3237
+    "amu": 2e-6,  # 1.66054e-24 vs 1.66053907e-24
+}
+
+
 def tol_for(*reps, base=1e-9):
-    """Relative tolerance for comparing a library factor with the reference one."""
+    """Relative tolerance for comparing a library factor with the reference one: ulp-level `base` plus the documented
+    inaccuracy of every rounded table constant that takes part in the conversion."""
+    tol = base
     for r in reps:
         if r is None:
             continue
-        if r[1] in ROUNDED_UNITS:
-            return ROUNDED_TOL
-    return base
+        tol += UNIT_INACCURACY.get(r[1], 0.0)
+    return tol
 
 
 def check_names_against_library():
